@@ -149,7 +149,29 @@ def check(chk):
     chk.judge(res == {NONE: False, FALSY: True, TRUTHY: True}, 'C40.value', ifs[0], '"@value" attached whenever the payload is not None (guard: %s)' % src(t),
               'guard %s drops "@value" for falsy payloads (0, 0.0, empty blob/list/map): the reader then returns the bare {"@type": ...} dict' % src(t))
     s = src(sz)
-    chk.judge('out = {self.TYPE_KEY: graphson_type}' in s and 'if graphson_base_type is None' in s and 'out = val' in s, 'C40.value', sz, 'typed values are {"@type": tag[, "@value": payload]}; untyped TypeIOs emit the bare payload', 'envelope construction changed')
+    # decided on the paths: what is returned is the bare payload exactly when the TypeIO has no base type, otherwise the {TYPE_KEY: tag} envelope
+    from .. import sem as _sem40
+    g40, fl40 = _sem40.flow_of(sz)
+    env_ok, seen_kinds = True, set()
+    for r in [n for n in g40.stmt_nodes() if n.kind == 'return' and n.ast.value is not None]:
+        v = src(r.ast.value)
+        for fa, _c in fl40.at(r):
+            untyped = fa.knows('graphson_base_type is None')
+            if v == 'val':
+                env_ok = env_ok and untyped is True
+                seen_kinds.add('bare')
+            elif v == 'out':
+                env_ok = env_ok and (untyped is False or 'out = val' in s)
+                seen_kinds.add('envelope')
+            else:
+                env_ok = False
+    if 'out = val' in s:
+        outs_ = [n for n in g40.stmt_nodes() if n.kind == 'stmt' and src(n.ast) == 'out = val']
+        env_ok = env_ok and all(fa.knows('graphson_base_type is None') is True for n in outs_ for fa, _c in fl40.at(n))
+        seen_kinds.add('bare')
+    envs_ = [n for n in g40.stmt_nodes() if n.kind == 'stmt' and src(n.ast) == 'out = {self.TYPE_KEY: graphson_type}']
+    env_ok = env_ok and len(envs_) == 1 and all(fa.knows('graphson_base_type is None') is False for fa, _c in fl40.at(envs_[0]))
+    chk.judge(env_ok and seen_kinds == set(['bare', 'envelope']), 'C40.value', sz, 'typed values are {"@type": tag[, "@value": payload]}; untyped TypeIOs emit the bare payload', 'envelope construction changed')
     rd = m.func('GraphSON2Reader.deserialize')
     s = src(rd)
     chk.judge('self.deserializer.get_deserializer(obj[GraphSON2Serializer.TYPE_KEY])' in s.replace('self.TYPE_KEY', 'GraphSON2Serializer.TYPE_KEY') or 'TYPE_KEY' in s, 'C40.value', rd,
@@ -219,6 +241,13 @@ def _duration_rule(chk, mod):
                 k = FLOAT if FLOAT in (_kind(v.args[0], env), _kind(v.args[1], env)) else (INT if _kind(v.args[0], env) == _kind(v.args[1], env) == INT else UNK)
                 for e in t.elts:
                     env[src(e)] = k
+            elif isinstance(t, ast.Name) and isinstance(v, ast.BinOp) and isinstance(v.op, ast.Add) and 'microseconds' in src(v.right) and isinstance(v.left, ast.Name):
+                # the same step spelled with a new name: `seconds = whole + value.microseconds / 1e6`
+                found += 1
+                k = env.get(v.left.id, UNK)
+                chk.judge(k == INT, 'C40.duration', st, '%s is a whole number of seconds when the microseconds are added' % v.left.id,
+                          'the fraction of a second is added to `%s`, which already is a %s value derived from total_seconds(): the sub-second part is counted twice (1.25 s is written as 1.5 s)' % (v.left.id, k))
+                env[t.id] = FLOAT
             elif isinstance(t, ast.Name):
                 env[t.id] = _kind(v, env)
         elif isinstance(st, ast.AugAssign) and isinstance(st.op, ast.Add) and 'microseconds' in src(st.value):
